@@ -171,10 +171,15 @@ pub fn c04(seed: u64, n: usize) {
         let fam = format!("{}/prev-{}", qy.fam, pf);
         emit_invc("C04", &fam, &qy.ks, &qy.pose, &prev, o);
         emit_invcs("C04", &fam, &qy.ks, &qy.pose, &prev);
+        if qy.ks.cons.is_some() { emit_consof("C04", &fam, &qy.ks); }
         if qy.axial { emit_invc5("C04", &fam, &qy.ks, &qy.pose, &prev, o); }
     }
     // Frame::forward_transformed orders by closeness to the given previous joints (not to the transformed ones)
     crate::props_misc::fwd_tr_cases("C04", &mut r, (n / 4).max(10));
+    // a robot with shape drops colliding answers and keeps the order of the rest
+    crate::props_coll::kws_cases("C04", &mut r, (n / 60).max(12), &[1, 3], false);
+    // the wrist-singular continuation (previous realising the pose, J4 / J6 whole turns away) keeps J4 and J6 on track
+    singular_continuity_cases("C04", &mut r, (n / 10).max(20));
     // trajectories: each call's previous is the preceding call's first answer
     let ntraj = (n / 50).max(2);
     for t in 0..ntraj {
@@ -230,11 +235,15 @@ pub fn c05(seed: u64, n: usize) {
         let q2 = rand_joints(&mut r, PI);
         emit_sing("C05", &format!("{}/random", rfam), &ks, &q2);
     }
-    // continuity at the exact singularity θ5 = 0
+    singular_continuity_cases("C05", &mut r, n);
+}
+
+/// continuity at the exact singularity θ5 = 0 (previous realising the pose, other J4/J6 splits, whole turns away)
+pub fn singular_continuity_cases(prop: &str, r: &mut Rng, n: usize) {
     for i in 0..n {
-        let (rfam, mut p) = gen_params(&mut r);
+        let (rfam, mut p) = gen_params(r);
         if i % 2 == 0 { p.offsets[4] = r.range(-1.0, 1.0); }
-        let mut th = rand_joints(&mut r, 2.0);
+        let mut th = rand_joints(r, 2.0);
         th[4] = 0.0;
         // well-conditioned arm posture: away from elbow/shoulder singularities
         let q = joints_of_theta(&p, &th);
@@ -242,26 +251,26 @@ pub fn c05(seed: u64, n: usize) {
         if !nonsingular(&p, &qq, 0.3) { continue; }
         let ks = KSpec::bare(p);
         let pose = ks.core().forward(&q);
-        emit_invc("C05", &format!("{}/singular-prev-realises", rfam), &ks, &pose, &q, Some(&q));
+        emit_invc(prop, &format!("{}/singular-prev-realises", rfam), &ks, &pose, &q, Some(&q));
         // previous with a different J4/J6 split and slightly different arm
         let mut prev = q;
         prev[3] += r.range(-1.0, 1.0); prev[5] += r.range(-1.0, 1.0);
-        emit_invc("C05", &format!("{}/singular-prev-other-split", rfam), &ks, &pose, &prev, Some(&q));
+        emit_invc(prop, &format!("{}/singular-prev-other-split", rfam), &ks, &pose, &prev, Some(&q));
         // previous realising the pose with J4 / J6 whole turns away (still inside +-2pi): the J4+J6 sums differ by
         // up to 4pi, the recovery has to wrap more than once
         let mut prev = q;
         for kk in [3usize, 5] { let cand = prev[kk] + 2.0 * PI * *r.pick(&[-1.0, 1.0]); if cand.abs() <= 2.0 * PI { prev[kk] = cand; } }
-        emit_invc("C05", &format!("{}/singular-prev-turns", rfam), &ks, &pose, &prev, Some(&q));
+        emit_invc(prop, &format!("{}/singular-prev-turns", rfam), &ks, &pose, &prev, Some(&q));
         // previous realising the pose with J4 and J6 two whole turns away (their sum up to four turns from the raw answer)
         let mut prev2 = q;
         for kk in [3usize, 5] { prev2[kk] += 4.0 * PI * *r.pick(&[-1.0, 1.0, 1.0]); }
-        emit_invc("C05", &format!("{}/singular-prev-two-turns", rfam), &ks, &pose, &prev2, Some(&q));
+        emit_invc(prop, &format!("{}/singular-prev-two-turns", rfam), &ks, &pose, &prev2, Some(&q));
         // the CONSTRAINT_CENTERED sentinel with limits whose centres are not zero
         if i % 3 == 0 {
             let mut f = [0.0; 6]; let mut t = [0.0; 6];
             for kk in 0..6 { let c = q[kk] + r.range(-0.3, 0.3); f[kk] = c - 1.0; t[kk] = c + 1.0; }
             let mut ksc = ks.clone(); ksc.cons = Some((f, t, *r.pick(&[0.0, 0.5, 1.0])));
-            emit_invc("C05", &format!("{}/singular-sentinel-cons", rfam), &ksc, &pose, &rs_opw_kinematics::kinematic_traits::CONSTRAINT_CENTERED, Some(&q));
+            emit_invc(prop, &format!("{}/singular-sentinel-cons", rfam), &ksc, &pose, &rs_opw_kinematics::kinematic_traits::CONSTRAINT_CENTERED, Some(&q));
         }
     }
 }
@@ -385,6 +394,8 @@ pub fn c09(seed: u64, n: usize) {
     }
     // a robot with shape is one more wrapper: base * robot * tool through both constructors (new, with_safety)
     crate::props_coll::kwsd_cases("C09", &mut r, (n / 25).max(24));
+    // ... and keeps the order of the answers of the stack below it (continuation ordering)
+    crate::props_coll::kws_cases("C09", &mut r, (n / 40).max(16), &[1, 3, 0], false);
 }
 
 /// C16: parallelogram coupling, all ordered index pairs, nesting with tool/base
